@@ -96,6 +96,19 @@ def programs(tier, mode):
                 p['routines']['n0'] = [['yieldv', 'x'], ['yieldv', 'y'],
                                        ['yieldv', 'z']]
                 out.append(p)
+    # a conductor routine changes the tempo of the clock a player routine is
+    # pending on (the player has been awakened before): the player's beats go
+    # on exactly, its seconds follow the new tempo
+    for pc, t0 in (('t1', 1.0), ('t2', 2.0)):
+        for cc in ('s', pc):
+            for at, v in ((1.5, 2.0 * t0), (0.75, 0.5 * t0), (1.25, 4.0 * t0)):
+                p = make_prog((pc, [1.0, 1.0, 1.0]))
+                p['routines']['k0'] = [['yield', at], ['tempo', pc, v]]
+                p['actors']['main'].append(['play', 'k0', cc, 0])
+                if cc not in p['clocks']:
+                    p['clocks'][cc] = CLOCKSPEC[cc]
+                p['conductor'] = [pc, t0, cc, at, v]
+                out.append(p)
     for c0 in tops:
         for c1 in tops:
             for s1 in ([0.25, 0.25, 0.5], [0.5, 0.5]):
@@ -111,6 +124,8 @@ def programs(tier, mode):
 def expected(prog):
     """{rid: [(seconds, beats), ...]} - the k-th entry is the logical time at
     the k-th resumption (k=0 is the start).  Exact dyadic arithmetic."""
+    if prog.get('conductor'):
+        return expected_conducted(prog)
     out = {}
     starts = {}     # rid -> (clock id, start seconds)
     for op in prog['actors']['main']:
@@ -136,6 +151,34 @@ def expected(prog):
     return out
 
 
+def expected_conducted(prog):
+    """Player r0 on a tempo clock, conductor k0 changing that clock's tempo
+    at its own logical time `at` (in units of its own clock)."""
+    pc, t0, cc, at, v = prog['conductor']
+    # instant (seconds) of the change: the conductor yields `at` on its clock
+    ts = at / (t0 if cc == pc else 1.0)
+    base_s, base_b, tempo = 0.0, 0.0, t0
+
+    def b2s(b):
+        return (b - base_b) / tempo + base_s
+    res = []
+    changed = False
+    b = 0.0
+    beats = [0.0]
+    for st in prog['routines']['r0']:
+        if st[0] == 'yield':
+            b += st[1]
+            beats.append(b)
+    for b in beats:
+        if not changed and b2s(b) > ts:
+            bb = (ts - base_s) * tempo + base_b
+            base_s, base_b, tempo = ts, bb, v
+            changed = True
+        res.append((b2s(b), b))
+    kt = [(0.0, 0.0), (ts, ts * (t0 if cc == pc else 1.0))]
+    return {'r0': res, 'k0': kt}
+
+
 def check_result(prog, res, mode):
     dis = []
     if res['status'] != 'ok':
@@ -155,8 +198,14 @@ def check_result(prog, res, mode):
             dis.append((f'{mode}-resumption-count-{kind_c}', len(want),
                         len(have), f'{rid}: {have}'))
             continue
+        # a tempo change made from another clock's thread can overtake a
+        # *late* wake-up of the player (two threads, physical order): then
+        # only the beats are decided by the statement, not the seconds
+        beats_only = bool(prog.get('conductor')) and mode == 'rt' and \
+            prog['conductor'][2] != prog['conductor'][0] and \
+            res.get('late_total', 0) > 0
         for k, ((ws, wb), (hs, hb, _)) in enumerate(zip(want, have)):
-            if hs != ws:
+            if hs != ws and not beats_only:
                 dis.append((f'{mode}-logical-seconds-{kind_c}'
                             + ('-start' if k == 0 else ''), ws, hs,
                             f'{rid} resumption {k}'))
